@@ -149,6 +149,8 @@ func ceaFor(kind string, hbh, e2e uint32) []byte {
 		return ceaSpec{rc: 2001, host: 1, realm: 1}.bytes(hbh, e2e)
 	case "U":
 		return ceaSpec{rc: 2001, host: 1, realm: 1, apps: []string{"Bx"}}.bytes(hbh, e2e)
+	case "R": // a relay agent: only the relay application id
+		return ceaSpec{rc: 2001, host: 1, realm: 1, apps: []string{"Ar"}}.bytes(hbh, e2e)
 	case "Y": // shares only application 16777999, which the embedded dictionaries do not have
 		return ceaSpec{rc: 2001, host: 1, realm: 1, apps: []string{"Vy"}}.bytes(hbh, e2e)
 	}
@@ -210,7 +212,7 @@ func (p *peerScript) hook(c *memConn, b []byte) (int, error) {
 		first()
 	}
 	switch react {
-	case "cer:S", "cer:F", "cer:M", "cer:A", "cer:U", "cer:Y":
+	case "cer:S", "cer:F", "cer:M", "cer:A", "cer:U", "cer:Y", "cer:R":
 		c.deliver(ceaFor(react[4:], hbh, e2e))
 	case "cer:P": // an application answer instead of a CEA: must not reach the application before the handshake
 		c.deliver(simpleMsg(272, 0, 4, 700+hbh%7, 700, diam.NewAVP(268, 0x40, 0, datatype.Unsigned32(2001))))
@@ -381,6 +383,16 @@ func execDial(toks []string) string {
 		}
 		hmu.Unlock()
 	})
+	// the application also registers for DWA by name (this client runs no watchdog of its own)
+	machine.HandleFunc("DWA", func(c diam.Conn, m *diam.Message) {
+		hmu.Lock()
+		handled++
+		metaSeen = "meta"
+		if _, ok := smpeer.FromContext(c.Context()); !ok {
+			metaSeen = "nometa"
+		}
+		hmu.Unlock()
+	})
 	am := 0
 	if a, ok := kvGet(toks, "am"); ok {
 		am, _ = strconv.Atoi(a)
@@ -502,6 +514,9 @@ func execDial(toks []string) string {
 			switch p {
 			case "S", "F", "M", "A", "U":
 				mc.deliver(ceaFor(p, uint32(900+i), uint32(900+i)))
+			case "D": // a DWA (this client runs no watchdog): the application's own "DWA" handler gets it
+				nq++
+				mc.deliver(dwaFor(2001, uint32(800+i), uint32(800+i)))
 			case "Q":
 				nq++
 				mc.deliver(simpleMsg(272, 0, 4, uint32(800+i), uint32(800+i), diam.NewAVP(268, 0x40, 0, datatype.Unsigned32(2001))))
@@ -739,7 +754,7 @@ func genSMClient(r *RNG, n int, op string, emit func(string)) {
 			R := r.Intn(4)
 			var beh []string
 			for k := 0; k < R+1; k++ {
-				b := []string{"N", "N", "P", "S", "S", "F", "M", "A", "U", "D", "W", "X", "Z", "C", "Y"}[r.Intn(15)]
+				b := []string{"N", "N", "P", "S", "S", "F", "M", "A", "U", "D", "W", "X", "Z", "C", "Y", "R"}[r.Intn(16)]
 				beh = append(beh, b)
 				if b != "N" && b != "P" && b != "W" {
 					break
@@ -747,7 +762,7 @@ func genSMClient(r *RNG, n int, op string, emit func(string)) {
 			}
 			var post []string
 			for k, m := 0, r.Intn(5); k < m; k++ {
-				post = append(post, []string{"S", "F", "Q", "Q", "M", "A", "U"}[r.Intn(7)])
+				post = append(post, []string{"S", "F", "Q", "Q", "M", "A", "U", "D"}[r.Intn(8)])
 			}
 			p := "-"
 			if len(post) > 0 {
